@@ -400,7 +400,7 @@ def ob_link(v: int, lv: int, absolute: bool, lerr: bool) -> bool:
 
 def ob_extras_order(v: int, e1: str, n2: int) -> bool:
     """
-    pre: 0 <= v <= 9 and len(e1) <= 1 and all(97 <= ord(c) <= 122 for c in e1) and 0 <= n2 <= 9
+    pre: 0 <= v <= 9 and len(e1) <= 1 and all(c in "az" for c in e1) and 0 <= n2 <= 9
     post: _
     """
     # extra positional parameters are APPENDED to the textual ones: add2(x, a:int, b="d", *rest) on "p/add2-4"
